@@ -208,6 +208,14 @@ def rule_b(ctx, cr):
     saved = set()
     for b in it.return_blocks():
         saved |= set(vm.at(b, "(*_1).cont") or ())
+    left = set()
+    for b in it.return_blocks():
+        left |= set(vm.at(b) or ())
+    ctx.check(left == {"Interrupt"}, "C13.b", "interrupt/always-requests-break", it.span,
+              "interrupt() returns with state == Interrupt whatever it found",
+              "interrupt() can return with state in %s: for that state the break is swallowed - "
+              "no BREAK is reported, nothing is saved for CONT and the program runs on (e.g. an "
+              "interrupt during a LIST statement of a running program)" % sorted(left - {"Interrupt"}))
     ctx.check("Interrupt" not in saved, "C13.b", "interrupt/never-saves-interrupt", it.span,
               "after interrupt() the saved continuation is one of %s" % sorted(saved),
               "interrupt() can save State::Interrupt as the continuation (a second interrupt() "
